@@ -11,4 +11,28 @@ CHECKS = {
   'technique': 'Coq proof (round-trip theorems) + model/implementation correspondence via vm_compute',
  },
 }
+CHECKS['C04'] = {
+  'text': 'Coq theorems for every decoder behaviour, every chunk list (unbounded) and every buffer: chunking independence of '
+          'dataReceived on the tracked connection (C04_chunking), termination with an iteration bound (C04_terminates, '
+          'C04_iteration_bound), header errors close the connection (C04_header_error_closes), error sub-codes. The session '
+          'reaction inside the framing machine is the FSM regenerated from fsm.py; the hand-written glue is tied by '
+          'replaying segmentations of generated streams (all type octets, length-field values, corrupt markers, truncated tails) '
+          'on the model and the implementation; an independent reference deframer and the segmentation-independence oracle '
+          'run on the real BGP.dataReceived.',
+  'note': 'Twisted stub (loseConnection stops reading); decoders are parameters of the model (theorems hold for all of them); '
+          'reference-deframer equivalence is checked by the oracle on generated streams, not proved; CPU time is measured, the '
+          'theorem bounds loop iterations; see DESIGN.md section 7',
+  'technique': 'Coq proof (generic framing machine + session instance, induction over chunk lists) + translator for fsm.py + exploration correspondence',
+}
+CHECKS['C20'] = {
+  'text': 'Coq proof for the repaired code (fix commits b635cb9, 8bf5d07): for all rotation thresholds and all histories of any '
+          'length (callbacks, clean restarts, crashes that leave none or all of the line being written) no start refuses, every '
+          'line is a complete record, seq +1 across files and restarts, one line per reported event (C20_audit_guarded); the full '
+          'statement is refuted by kernel-checked witnesses for a crash that cuts a line (known finding C20-torn-tail). Model tied '
+          'to default_handler.py by correspondence on a real temporary directory: all 9 callbacks, restart after every event, every '
+          'octet offset of a write.',
+  'note': 'abstract file system (append/truncate/getsize; fsync-per-write assumption checked at run time); complete JSON <=> parseable '
+          '(validated at every swept offset); file names sort in creation order (driven clock); simplejson stub',
+  'technique': 'Coq proof (induction over histories) + refutation witnesses + model/implementation correspondence with crash injection at every byte offset',
+}
 NOT_CLAIMED = {}
